@@ -33,6 +33,9 @@ class Trace(object):
         self.t_entry = None
         self.t_solve_return = []
         self.model_view = None
+        self.opt_view = None
+        self.inst_text = None
+        self.timeout = False
         self.files = {}          # generator: name -> text
         self.listing = None
         self.stderr = ''
@@ -221,6 +224,12 @@ def solver_session(tr, path, na, twopl, opts, ops, backend_cfg, clock,
             tr.model_view = _model_view(s)
         except Exception as e:           # documented attributes missing
             tr.model_view = {'error': repr(e)}
+        try:
+            tr.opt_view = [(getattr(o[0], 'name', str(o[0])),
+                            list(o[1] or []))
+                           for o in s.options_parser.optimisation_options]
+        except Exception as e:
+            tr.opt_view = {'error': repr(e)}
         for op in ops:
             name = op[0]
             kw = op[1] if len(op) > 1 else {}
